@@ -60,10 +60,18 @@ structure OSt where
   prevQ : Nat := 0
   prevIdleDrain : Bool := false
   startsTotal : Nat := 0
+  /-- actors whose `Finished` report the factory has not processed yet (no answered snapshot since) -/
+  unprocessed : List Nat := []
+  /-- an incarnation died while its completion report was still unprocessed -/
+  stale : Bool := false
   bad : List String := []
   deriving Repr
 
-def OSt.flag (s : OSt) (c : String) : OSt := { s with bad := s.bad ++ [c] }
+/-- Violated clauses are recorded by name. Histories in which a worker incarnation died after it
+reported a completion that the factory had not yet processed (`stale`, finding F4) get the
+suffix `@stale-completion`: that is the classifier of the known finding. -/
+def OSt.flag (s : OSt) (c : String) : OSt :=
+  { s with bad := s.bad ++ [if s.stale then c ++ "@stale-completion" else c] }
 
 def OSt.getJob (s : OSt) (id : Nat) : Option JobRec := s.jobs.find? (·.id == id)
 def OSt.setJob (s : OSt) (j : JobRec) : OSt :=
@@ -93,9 +101,10 @@ def oStep (s : OSt) : Ev → OSt
       if (s.getJob id).isSome then s.flag "c13-duplicate-id"
       else { s with jobs := s.jobs ++ [{ id, key, acc, step := s.step, afterDrain := s.drainReq }] }
   | .finishOk aid =>
-    { s with running := s.running.filter (·.1 != aid), stepOps := s.stepOps + 1 }
+    { s with running := s.running.filter (·.1 != aid), stepOps := s.stepOps + 1, unprocessed := aid :: s.unprocessed }
   | .died aid =>
-    { s with running := s.running.filter (·.1 != aid), stepOps := s.stepOps + 1 }
+    { s with running := s.running.filter (·.1 != aid), stepOps := s.stepOps + 1,
+             stale := s.stale || s.unprocessed.contains aid }
   | .requested n =>
     let s := { s with stepOps := s.stepOps + 1 }
     if n == 0 then s else { s with requested := min n GLOBAL_WORKER_POOL_MAXIMUM }
@@ -156,7 +165,7 @@ def oStep (s : OSt) : Ev → OSt
     let s := { s with hooks := hs }
     if isPrefixOf' hs [.started, .draining, .stopped] then s else s.flag "c15-hook-order"
   | .lost .. | .dropped _ | .panicked => s
-  | .snap up q act cap live =>
+  | .snap up q act _cap live =>
     let blocked := up && q.isNone
     let s := if !up && s.up && !s.hooks.contains .stopped then s.flag "c15-stopped-without-hook" else s
     let s := if s.prevIdleDrain && up then s.flag "c15-drain-not-stopped" else s
@@ -187,7 +196,7 @@ def oStep (s : OSt) : Ev → OSt
         let s := if act == 0 && q == 0 && s.running.isEmpty && s.info.hasHandler &&
             s.jobs.any (fun j => j.started.isNone && j.discards == 0 && !j.returned)
           then s.flag "c13-silently-disappeared" else s
-        { s with prevQ := q, prevIdleDrain := s.drainReq && act == 0 && q == 0 && s.running.isEmpty }
+        { s with prevQ := q, prevIdleDrain := s.drainReq && act == 0 && q == 0 && s.running.isEmpty, unprocessed := [] }
       | _, _ => { s with prevIdleDrain := false }
     -- every dispatch after DrainRequests is refused with Shutdown in its own step
     let s := match s.stepDispatch.bind s.getJob with
@@ -210,6 +219,10 @@ def oRun (info : Info) (h : List Ev) : OSt := h.foldl oStep (oInit info)
 
 /-- the leaky-bucket window clause is time-dependent; the driver evaluates it per step -/
 def violations (info : Info) (h : List Ev) : List String := (oRun info h).bad
+
+/-- (F4 classifier) no worker incarnation dies between reporting a completion and the factory
+processing that report. -/
+def noStaleCompletion (info : Info) (h : List Ev) : Bool := !(oRun info h).stale
 
 def clausesOf (p : String) (v : List String) : List String := v.filter (·.startsWith p)
 
